@@ -185,15 +185,23 @@ class SSHChannel(Generic[AnyStr], SSHPacketHandler):
         self._encoding = encoding
         self._errors = errors
 
-        if encoding:
-            self._encoder: Optional[codecs.IncrementalEncoder] = \
-                codecs.getincrementalencoder(encoding)(errors)
-        else:
-            self._encoder = None
-
         # Each type of data is a stream of its own, so a character split
-        # across packets mustn't be mixed up with data of another type
+        # across packets mustn't be mixed up with data of another type,
+        # and each of them begins with a byte order mark of its own when
+        # the encoding uses one
+        self._encoders: Dict[DataType, codecs.IncrementalEncoder] = {}
         self._decoders: Dict[DataType, codecs.IncrementalDecoder] = {}
+
+    def _get_encoder(self, datatype: DataType) -> codecs.IncrementalEncoder:
+        """Return the incremental encoder for a type of outgoing data"""
+
+        try:
+            return self._encoders[datatype]
+        except KeyError:
+            assert self._encoding is not None
+            encoder = codecs.getincrementalencoder(self._encoding)(self._errors)
+            self._encoders[datatype] = encoder
+            return encoder
 
     def _get_decoder(self, datatype: DataType) -> codecs.IncrementalDecoder:
         """Return the incremental decoder for a type of incoming data"""
@@ -1079,8 +1087,8 @@ class SSHChannel(Generic[AnyStr], SSHPacketHandler):
             return
 
         if self._encoding:
-            assert self._encoder is not None
-            encoded_data = self._encoder.encode(cast(str, data))
+            encoder = self._get_encoder(datatype)
+            encoded_data = encoder.encode(cast(str, data))
         else:
             encoded_data = cast(bytes, data)
 
